@@ -14,6 +14,8 @@ import (
 // C10: an honestly generated Schnorr proof verifies under the same session, for every
 // witness x in [1,q) (x = 0 has no point X on secp256k1), every coin.
 func verifC10ZK(ec elliptic.Curve) {
+	// coin excluded: a Fiat-Shamir challenge that is 0 modulo the group order
+	v.Summarise("challenge-independent")
 	q := ec.Params().N
 	x := v.NondetNat("x")
 	v.Assume("witness-in-Zq*", v.InRange(x, big.NewInt(1), q))
